@@ -55,7 +55,7 @@ def ascii_pairs(full):
             for b in chars:
                 yield a + b
     else:
-        keys = '09afgxob_AFZz!@=/"\'\\ \n\t\r?<+-.({\x00\x1c\x7f'
+        keys = '0afx_Z!@=/"\'\\ \n\r?<({\x00\x7f'
         for a in keys:
             for b in chars:
                 yield a + b
